@@ -241,3 +241,137 @@ def bytes_equivalent(data, want, layout):
     if mech is None:
         return True, 'json_spelling', None
     return False, mech, detail
+
+
+# ------------------------------------------------------------ concurrency
+# Independent objects (two writers, two readers, two trees) used at the same
+# time from different threads, or as interleaved generators in one thread,
+# must behave exactly as each does alone: every property quantifies over the
+# calls made on *one* object and is silent about what else the process does.
+def _outcome(thunk):
+    try:
+        return ('ok', thunk())
+    except Exception as e:
+        return ('exc', type(e).__name__)
+
+
+def check_concurrent(obs, rng, cases, make_thunk, tag, p=None, seed=None):
+    """Run make_thunk(case)() for every case alone, then all of them under
+    the seeded baton scheduler; any difference is a violation
+    ``concurrent:<tag>:...``. Returns True when everything agreed."""
+    import random
+    from mon.monitor import sched
+    if not sched.available():
+        obs.count('concurrent:unavailable')
+        return True
+    if seed is None:
+        seed = rng.getrandbits(48)
+    if p is None:
+        p = rng.choice([0.02, 0.08, 0.25])
+    solo = [_outcome(make_thunk(c)) for c in cases]
+    thunks = [make_thunk(c) for c in cases]
+    res, s = sched.concurrently(random.Random(seed), thunks, p)
+    obs.count('concurrent:%s:groups' % tag)
+    obs.count('concurrent:%s:workers' % tag, len(cases))
+    obs.count('concurrent:scheduling_points', s.points)
+    obs.count('concurrent:switches', s.switches)
+    if s.forced:
+        obs.count('concurrent:forced_handovers', s.forced)
+    case = {'concurrent': tag, 'cases': cases, 'sched_seed': seed, 'p': p}
+    ok = True
+    for i, (so, r) in enumerate(zip(solo, res)):
+        if r[0] == 'hung':
+            obs.inconclusive_because('a concurrent %s worker did not finish '
+                                     'within the watchdog' % tag)
+            return False
+        got = ('exc', type(r[1]).__name__) if r[0] == 'exc' else r
+        if got[0] != so[0] or not strict_equal(got[1], so[1]):
+            if got[0] == 'exc' and so[0] == 'ok':
+                mech = 'concurrent:%s:raises_only_when_concurrent:%s' % (
+                    tag, got[1])
+            else:
+                mech = 'concurrent:%s:result_differs_from_solo' % tag
+            obs.violation(mech, case, {
+                'worker': i, 'switches': s.switches,
+                'solo': repr(so)[:300], 'concurrent': repr(got)[:300]})
+            ok = False
+            break
+    return ok
+
+
+def replay_concurrent(case, obs, make_thunk):
+    import random
+    for attempt in range(20):
+        # the schedule is a function of the seed unless a hand-over had to
+        # be forced; a handful of neighbouring seeds covers that
+        if not check_concurrent(obs, random.Random(attempt), case['cases'],
+                                make_thunk, case['concurrent'], p=case['p'],
+                                seed=case['sched_seed'] + attempt):
+            return
+
+
+def interleave_readers(datas):
+    """Step one DiffXReader per document round-robin in this thread (like
+    ``zip(reader1, reader2)``); returns per document (records, exc name)."""
+    from pydiffx.reader import DiffXReader
+    import copy
+    gens = [iter(DiffXReader(io.BytesIO(d))) for d in datas]
+    out = [([], None) for _ in datas]
+    live = list(range(len(datas)))
+    while live:
+        for i in list(live):
+            try:
+                r = next(gens[i])
+                out[i][0].append(copy.deepcopy(project(r)))
+            except StopIteration:
+                live.remove(i)
+            except Exception as e:
+                out[i] = (out[i][0], type(e).__name__)
+                live.remove(i)
+    return out
+
+
+def check_interleaved_readers(obs, datas, tag='readers'):
+    """Interleaved iteration must give each document what reading it alone
+    gives."""
+    solo = []
+    for d in datas:
+        recs, exc, _ = read_records(d, offset=0)
+        solo.append((recs, type(exc).__name__ if exc else None))
+    got = interleave_readers(datas)
+    obs.count('interleaved:%s:groups' % tag)
+    for i, (s, g) in enumerate(zip(solo, got)):
+        if s[1] != g[1] or diff_records(s[0], g[0]) is not None:
+            obs.violation('interleaved:%s:result_differs_from_solo' % tag,
+                          {'interleaved': tag, 'datas': list(datas)},
+                          {'document': i, 'solo_exc': s[1], 'got_exc': g[1],
+                           'diff': diff_records(s[0], g[0])})
+            return False
+    return True
+
+
+def reader_thunk(data):
+    def thunk():
+        recs, exc, _ = read_records(data, offset=0)
+        return [recs, type(exc).__name__ if exc else None]
+    return thunk
+
+
+def reader_concurrency_pass(ctx, gen_data, n_groups, tag='readers'):
+    """Groups of 2-4 documents (from ``gen_data(rng) -> bytes``): one reader
+    per document, (a) in threads under the seeded scheduler and (b) stepped
+    round-robin as generators in one thread; each must yield what it yields
+    alone."""
+    rng = ctx.rng
+    for _ in range(n_groups):
+        datas = [gen_data(rng) for _ in range(rng.randint(2, 4))]
+        ctx.obs.case(('concurrent', datas))
+        check_interleaved_readers(ctx.obs, datas, tag)
+        check_concurrent(ctx.obs, rng, datas, reader_thunk, tag)
+
+
+def replay_reader_concurrency(case, obs):
+    if 'interleaved' in case:
+        return check_interleaved_readers(obs, case['datas'],
+                                         case['interleaved'])
+    return replay_concurrent(case, obs, reader_thunk)
